@@ -85,7 +85,7 @@ def _run(ctx, ncases, nsteps):
     # the last two cases replay the known finding C12-stale-cvel (equality model, channel NOT neutralised, no poison)
     probe_known = c >= ncases
     cone = ' cone="elliptic"' if rng.random() < 0.4 else ""
-    jac = ' jacobian="sparse"' if rng.random() < 0.3 else ""
+    jac = ' jacobian="sparse"' if rng.random() < 0.5 else ""
     integ = str(rng.choice(["Euler", "implicitfast", "RK4", "implicit"]))
     wb, sp = models.random_tree(rng, nbody=int(rng.integers(2, 6)), geom_types=["sphere", "capsule", "box"], spread=0.4, sites=True, joint_types=("free", "hinge", "slide", "ball"))
     extra = ""
@@ -93,6 +93,10 @@ def _run(ctx, ncases, nsteps):
       extra = f'<equality><connect body1="{sp.bodies[0]}" body2="{sp.bodies[1]}" anchor="0 0 0"/></equality>'
     xml = models.wrap(wb, option=f'timestep="0.004" integrator="{integ}"' + cone + jac, extra=extra)
     xml = xml.replace('type="hinge"', 'type="hinge" damping="0.2" limited="true" range="-1 1" frictionloss="0.05"')
+    # contacts of different dimensionality in one model: per-contact row tables (contact.efc_address) then have unused tails whose
+    # content must not leak from the slot's previous occupant
+    import re as _re
+    xml = _re.sub(r'<geom name="g', lambda mo: f'<geom condim="{int(rng.choice([1, 3, 3, 4, 6]))}" name="g', xml)
     try:
       mjm = mujoco.MjModel.from_xml_string(xml)
     except ValueError:
@@ -162,7 +166,7 @@ RULE = ("random trees over a floor with limits/friction loss/optional connect eq
 
 
 def correspondence(ctx):
-  acc = _run(ctx, 16 if ctx.thorough else 5, 3)
+  acc = _run(ctx, 48 if ctx.thorough else 24, 3)
   return result(acc, RULE)
 
 
